@@ -269,6 +269,23 @@ func (x *Exec) pureSym(key string, fn *ssa.Function, sig *types.Signature) strin
 	return sym
 }
 
+// interiorTerm names the address of a field path inside an object: an injective-by-name function of the base ref.
+func (x *Exec) interiorTerm(l *Loc) (string, bool) {
+	if l.Elem || l.Ref == "" {
+		return "", false
+	}
+	name := "loc"
+	for _, pe := range l.Path {
+		if pe.IsIdx {
+			return "", false
+		}
+		name += fmt.Sprintf(".%d", pe.Field)
+	}
+	sym := q(name + "!")
+	x.so.decl(sym, fmt.Sprintf("(declare-fun %s (Int) Int)", sym))
+	return "(" + sym + " " + l.Ref + ")", true
+}
+
 // applyContract models a call by its contract.
 func (x *Exec) applyContract(st *State, fc *FuncContract, key string, callee *ssa.Function, sig *types.Signature, args []Val, pos token.Pos) Val {
 	fc.Used = true
@@ -352,6 +369,14 @@ func (x *Exec) applyContract(st *State, fc *FuncContract, key string, callee *ss
 		sym := x.pureSym(key, callee, sig)
 		var as []string
 		for i, a := range args {
+			if a.S == "" && a.Loc != nil {
+				// an interior pointer (e.g. the address of an embedded struct passed as a receiver): a
+				// function of the base object and the (static) field path
+				if t, ok := x.interiorTerm(a.Loc); ok {
+					as = append(as, t)
+					continue
+				}
+			}
 			if i < len(pts) {
 				as = append(as, x.coerce(a, pts[i]))
 			} else {
